@@ -24,7 +24,7 @@ SHA1_PREFIX = bytes.fromhex("3021300906052b0e03021a05000414")
 
 
 def gen_cases(tier, seed):
-    n = 4 if tier == "quick" else 48
+    n = 4 if tier == "quick" else 192
     for i in range(n):
         yield {"seed": "%d:%d" % (seed, i), "tokens": 8 if tier == "quick" else 20}
 
